@@ -190,8 +190,17 @@ def run(shard, ctx):
             check_key(ctx, name, sig, mode)
         ctx.sample({"order": [k[0] for k in ks][:10]})
     elif kind == "ints":
-        for i in list(range(-40, 41)) + [2 ** k for k in range(6, 40)] + [-2 ** k for k in range(6, 40)]:
+        for big in list(range(-40, 41)) + [2 ** k for k in range(6, 40)] + [-2 ** k for k in range(6, 40)] + \
+                [10 ** 4299, 10 ** 4300, -(10 ** 5000), 1 << 20000]:
+            i = big
             st, v = ctx.call(keys.get_key, i)
+            if abs(i) > 10 ** 100:
+                i = "about %s2**%d" % ("-" if i < 0 else "", i.bit_length())       # (witnesses stay printable)
+                ctx.check("reject: signature numbers outside -7..7 raise the range error",
+                          st == "exc" and isinstance(v, RangeError), {"signature": i}, "RangeError", repr(v),
+                          mechanism="reject:get_key")
+                ctx.case(("int", i))
+                continue
             if -7 <= i <= 7:
                 exp = (T.major_tonic(i), T.minor_tonic(i)[0].lower() + T.minor_tonic(i)[1:])
                 ctx.check("signature: key lookup for -7..7", st == "ok" and tuple(v) == exp, {"signature": i}, exp, v)
@@ -220,6 +229,10 @@ def run(shard, ctx):
                   "Fb", "fb", "B#", "E#", "cb", "Db ", "g##", "G##"]:
             if s[0] in firsts:
                 check_candidate(ctx, s)
+        if "C" in firsts or "c" in firsts or "#" in firsts:
+            for s in T.HOSTILE_STRINGS:
+                if s[0] in firsts or (s[0] not in "ABCDEFGabcdefg" and "#" in firsts):
+                    check_candidate(ctx, s)
         ctx.note_exhaustive("strings starting with %s over %r up to length %d" % ("".join(firsts), ALPHA, shard["maxlen"]), n)
         ctx.sample({"candidate": firsts[0] + "#b", "is_valid_key": keys.is_valid_key(firsts[0] + "#b")})
     else:
